@@ -196,7 +196,7 @@ func init() {
 		Batches: [2]int{1, 8}, PerBatch: [2]int{40, 48}, Cases: [2]int{80, 300},
 		Rule:        "cases = (schema from the contract profile) x RPC x value x source {JSON the generated Go server returns, contract-form request body the Go server accepts, object the generated TS server passes to its handler (request sent by the generated Go client)}. The declarations of *_client.ts and *_server.ts are read by a parser of exactly the emitted subset (interfaces, string-literal unions, object-literal unions, intersections, Record<>, arrays, ?, | null; method signatures of client classes) and the value must inhabit the declared type structurally, with every property on the wire declared at that position; the two plugins' declarations of the same type must be equal. Non-trivial = every judged value (distinct by wire text).",
 		Assumptions: append([]string{"no TypeScript compiler offline: inhabitation is decided by a structural checker over the emitted declaration subset; a declaration it cannot parse is an infrastructure error (exit 2), never a violation"}, commonAssumptions...)})
-	registerRuntime(&runtimeCheck{ID: "C03", Profile: schema.ProfileRoutes, Inner: []string{"c03"}, Prefix: "n", Prepare: prepareTS,
+	registerRuntime(&runtimeCheck{ID: "C03", Profile: schema.ProfileRoutes, Inner: []string{"c03", "c02ts"}, Prefix: "n", Prepare: prepareTS,
 		Batches: [2]int{1, 8}, PerBatch: [2]int{48, 64}, Cases: [2]int{25, 80},
 		Rule:        "cases = (service with base_path in {absent, /a, /a/, /, multi-segment} x method config {verb only, path only, both; absent/defaulted paths only while the recorded finding is closed} x templates with 0-3 variables first/last/adjacent x verbs x method-name shapes x Go package name != proto package tail) x RPC x request with every URL-bound field non-default. Observed dynamically: the Go client's request line and body (recording RoundTripper), the Go server's routing of that request (which handler ran), the TS client's request through an injected fetch, the TS server's RouteDescriptors, the OpenAPI operation. Oracle: same verb, same path, same query parameters, body fields in the same place, exactly one TS route (this RPC's) matches, OpenAPI template/verb/path parameters/requestBody agree. Non-trivial = RPC with a path variable or query parameter, or a defaulted config; distinct by request line.",
 		Assumptions: append([]string{"agreement is observed on concrete requests (values substituted), not by comparing template strings, so differences in spelling that route identically are not flagged"}, commonAssumptions...)})
